@@ -342,6 +342,14 @@ def monitor(ck, sc, r):
             rp.update(extra)
         ck.violation(f"{what} (scenario {sc['id']}, partition {p})", rp, signature=sig or f"sim:{what[:70]}")
 
+    if sc.get("expect_no_timeout"):
+        # every record of this scenario is in the log seconds before the getone() for its partition gives up
+        for e in tr:
+            if e["ev"] == "a_getone" and e.get("rec") is None:
+                viol(f"getone({e.get('parts')}) of task {e.get('task')} was still blocked when it gave up, although the "
+                     f"record it waits for had been in the log (and fetched) for seconds: delivery does not continue to "
+                     f"the end of the log", (e.get("parts") or [None])[0], {"event": e},
+                     sig="sim:blocked-getone-not-woken")
     for e in tr:
         if e["ev"] == "a_exc":
             expected = sc["policy"] == "none" and e["exc"] in ("NoOffsetForPartitionError", "OffsetOutOfRangeError")
@@ -730,6 +738,18 @@ def directed_scenarios(base_id):
             sc["id"] = k
             sc["api_ranges"] = {"1": [0, ver]}
             out.append(sc)
+            k += 1
+    # 8. one task per partition, each blocked in getone(tp_i); the records arrive one partition after the other while
+    #    all tasks are blocked: each task must be woken for its own partition's data
+    for nparts in (2, 3, 4):
+        for gap in (0.15, 0.5):
+            logs = {str(q): [dict(data(1), at=round(0.3 + gap * ((q * 2) % nparts), 3)),
+                             dict(data(1), at=round(0.3 + gap * nparts + gap * q, 3))] for q in range(nparts)}
+            out.append({"id": k, "seed": k, "brokers": 1 + (nparts % 2), "partitions": nparts, "iso": 0,
+                        "policy": "earliest", "logs": logs, "fetch_max_wait_ms": 100, "expect_no_timeout": True,
+                        "tasks": [[{"op": "getone", "parts": [q], "timeout": 6.0},
+                                   {"op": "getone", "parts": [q], "timeout": 6.0}] for q in range(nparts)],
+                        "drain": 10.0})
             k += 1
     for sc in out:
         sc.setdefault("faults", {})
